@@ -126,6 +126,9 @@ func newConcretiser(kp hx.KeyPair, rng *mrand.Rand, n int) *concretiser {
 
 // value concretises an abstract value (0, 2, 3, 40, or v+31 = "v plus the group order") for index i.
 func (c *concretiser) value(i, a int) *gobig.Int {
+	if a < -1 {
+		return new(gobig.Int).Neg(c.value(i, -a))
+	}
 	switch a {
 	case 0:
 		return gobig.NewInt(0)
@@ -390,7 +393,7 @@ func runCheat(cz *concretiser, cr *credential, c aCase, rng *mrand.Rand, res *hx
 	// what C01 demands of an accepted proof, evaluated on the concrete proof with the harness' own knowledge
 	authentic, why := true, ""
 	for i, v := range p.ADisclosed {
-		if rep(pk, v.Go()).Cmp(rep(pk, cr.ms[i])) != 0 {
+		if rep(pk, v.Go()).Cmp(rep(pk, cr.ms[i])) != 0 || v.Go().Sign() < 0 {
 			authentic, why = false, fmt.Sprintf("index %d reported as disclosed with a value that was not signed", i)
 		}
 		if _, both := p.AResponses[i]; both {
